@@ -29,6 +29,8 @@ assert rc == 0, "patch does not apply: " + o
 rc, o = run(["go", "build", "./internal/decode/", "./internal/encode/", "./internal/format/", "./internal/types/", "./internal/writer/", "./mpx/", "./rpc/", "."])
 builds = rc == 0
 rc, o = run(["go", "test", "-vet=off", "-count=1", "./internal/decode/...", "./internal/lang/...", "./internal/tests/...", "./internal/writer/...", "./mpx/...", "./rpc/..."])
+if rc != 0:  # the library's own suite has timing-dependent tests: one retry on a loaded machine
+    rc, o = run(["go", "test", "-vet=off", "-count=1", "./internal/decode/...", "./internal/lang/...", "./internal/tests/...", "./internal/writer/...", "./mpx/...", "./rpc/..."])
 suite_ok = rc == 0
 suite_tail = o[-600:]
 shutil.copy(demo, os.path.join(wt, dest))
